@@ -453,6 +453,14 @@ func c03Alphabet(s *sessSys) []sessReq {
 			p, f, q := rsBasic(ue, teid, "11.1.1.129")
 			add("est-basic", sessReq{sReq: sReq{Kind: kEst, Conn: c, CPSEID: uint64(10 + n), CreatePDR: p, CreateFAR: f, CreateQER: q}})
 			if c == 0 {
+				// the same rules with the IEs of every PDR and PDI in reverse order (any order is legal on the wire)
+				pr := append([]sPDR{}, p...)
+				for i := range pr {
+					pr[i].Rev = true
+				}
+				add("est-basic-reversed-ies", sessReq{sReq: sReq{Kind: kEst, Conn: c, CPSEID: uint64(10 + n), CreatePDR: pr, CreateFAR: f, CreateQER: q}})
+			}
+			if c == 0 {
 				// two application QERs + one session-wide one, CHOOSE on the uplink PDR when the pool allows
 				p2, f2, _ := rsBasic(ue, teid, "11.1.1.130")
 				p2[0].QERs, p2[1].QERs = []uint32{1, 4}, []uint32{2, 4}
@@ -561,6 +569,12 @@ func c03Alphabet(s *sessSys) []sessReq {
 				nq.MBRDL += 5
 				nq.MBRUL += 5
 				add("mod-uqer-session", sessReq{sReq: sReq{Kind: kMod, Conn: c, UpdateQER: []sQER{nq}}, Sess: x.Idx})
+			}
+			if q := x.qer(4); q != nil && !q.HasGBR && q4common {
+				// the session-wide QER is given a guaranteed bit rate (it keeps its role: its entries are programmed under it)
+				nq := *q
+				nq.HasGBR, nq.GBRUL, nq.GBRDL = true, 500, 500
+				add("mod-uqer-session-gbr", sessReq{sReq: sReq{Kind: kMod, Conn: c, UpdateQER: []sQER{nq}}, Sess: x.Idx})
 			}
 			if len(x.PDRs) > 0 {
 				first, last := x.PDRs[0].ID, x.PDRs[len(x.PDRs)-1].ID
